@@ -40,7 +40,7 @@ def run_v_unit(prop, unit, tier, canary):
         f.write(gen)
     opts = registry.UNIT_OPTS.get(unit, {})
     rlimit = opts.get("rlimit", 40) * (3 if tier == "thorough" else 1)
-    timeout = opts.get("timeout", 420) * (3 if tier == "thorough" else 1)
+    timeout = opts.get("timeout", 1500) * (3 if tier == "thorough" else 1)
     if canary:
         rlimit = opts.get("canary_rlimit", 5)
     res = verusrun.run_verus(gpath, rlimit=rlimit, timeout=timeout)
